@@ -10,7 +10,7 @@ closure variables `last_node`, `last_ev_parent`, `last_highlevel_op`, `op_depth`
 `_construct_graph_from_kernels` (launch-delay / kernel-kernel / synchronisation edges for
 Stream Sync and Context Sync), `_add_edge_helper` (weight rule), `_attribute_edge`.
 
-Stage 1: traces without CUDA event record / stream-wait / event-sync records.
+Stage 2 (CUDA event record / stream-wait / event-synchronize matching) is included.
 -/
 namespace Hta.C08
 
@@ -194,38 +194,166 @@ def lastOn (l : KS) (s : Int) : Option NodeId := (l.find? fun x => x.1 == s).map
 def setLast (l : KS) (s : Int) (n : NodeId) : KS :=
   if l.any (fun x => x.1 == s) then l.map fun x => if x.1 == s then (s, n) else x else l ++ [(s, n)]
 
-def kernelStep (rows clipped : List Row) (q : Int → Option Int) (zeroLaunch : Bool) (st : KS) (r : Row) :
-    KS × List Desc :=
-  let hasN := fun (i : Int) => ((findRow clipped i).map hasNode).getD false
+/-! #### CUDA-event based synchronisation (stage 2): `_get_cuda_runtime_calls_df`,
+`_get_cuda_event_to_stream_df`, `_get_cuda_event_record_df` (`find_previous_launch`),
+`_get_cuda_stream_wait_event_df` (`find_next_launch`) -/
+
+/-- `wait_on_stream` / `wait_on_cuda_event_record_corr_id` of the rows that carry them:
+`(event id, wait_on_stream, wait_on_cuda_event_record_corr_id)`; every other row has `(-1, -1)`. -/
+abbrev Waits := List (Int × Int × Int)
+
+def waitOf (ws : Waits) (i : Int) : Int × Int := ((ws.find? fun w => w.1 == i).map (·.2)).getD (-1, -1)
+
+def launchNames : List String :=
+  ["cudaMemsetAsync", "cudaMemcpyAsync", "cudaLaunchKernel", "cudaLaunchKernelExC", "cuLaunchKernel",
+   "runFunction - job_prep_and_submit_for_execution", "hipLaunchKernel", "hipExtModuleLaunchKernel",
+   "hipMemcpyAsync", "hipMemsetAsync", "hipMemcpyWithStream"]
+
+/-- A row of `_get_cuda_runtime_calls_df`: the launch call, the stream and the device (pid) of the
+activity it launched. The position in the list is the `launch_id`. -/
+structure Launch where
+  call : Row
+  stream : Int
+  gpu : Int
+  deriving Repr, BEq
+
+def sortByTs (l : List Row) : List Row := l.mergeSort fun a b => decide (a.ts ≤ b.ts)
+
+/-- Launch calls linked to a device activity, in start order (inner merge with the linked device rows). -/
+def launches (rows : List Row) : List Launch :=
+  (sortByTs (rows.filter fun r => launchNames.contains r.name && decide (r.link > 0))).filterMap fun c =>
+    (rows.find? fun k => k.idx == c.link && k.stream != -1 && decide (k.link > 0)).map fun k => ⟨c, k.stream, k.pid⟩
+
+/-- `_get_cuda_event_to_stream_df`: the stream and device an event record was made on, read off the
+synchronisation records that wait for it. -/
+def recordStream (rows : List Row) (ws : Waits) (corr : Int) : Option (Int × Int) :=
+  (rows.find? fun r => decide ((waitOf ws r.idx).1 > -1) && (waitOf ws r.idx).2 == corr).map fun r => ((waitOf ws r.idx).1, r.pid)
+
+/-- position (= `launch_id`) of the last element satisfying `p` -/
+def lastIdx {α : Type} (p : α → Bool) : List α → Nat → Option Nat → Option Nat
+  | [], _, acc => acc
+  | x :: xs, i, acc => lastIdx p xs (i + 1) (if p x then some i else acc)
+
+/-- `find_previous_launch`: for a `cudaEventRecord` call whose stream is known, the id of the launch
+call that most recently (by start time) put work on that stream of that device; -1 if none. -/
+def prevLaunch (rows : List Row) (ws : Waits) (rec : Row) : Int :=
+  match recordStream rows ws rec.corr with
+  | none => -1
+  | some (s, gpu) =>
+    let ls := launches rows
+    match lastIdx (fun (l : Launch) => l.stream == s && l.gpu == gpu && decide (l.call.ts ≤ rec.ts)) ls 0 none with
+    | some i => ((ls[i]?).map (·.call.idx)).getD (-1)
+    | none => -1
+
+/-- `index_previous_launch` as joined onto a synchronisation record through
+`wait_on_cuda_event_record_corr_id` (-1 when no event record matches). -/
+def prevLaunchOfSync (rows : List Row) (ws : Waits) (r : Row) : Int :=
+  let wc := (waitOf ws r.idx).2
+  match rows.find? fun c => c.name == "cudaEventRecord" && c.corr == wc && (recordStream rows ws c.corr).isSome with
+  | some c => prevLaunch rows ws c
+  | none => -1
+
+/-- `find_next_launch`: for a linked `cudaStreamWaitEvent` call, the id of the next launch call of the
+same host thread that puts work on the waiting stream; -1 if none. `none`: the call is not in the table. -/
+def nextLaunch (rows : List Row) (callIdx : Int) : Option Int :=
+  match rows.find? fun c => c.idx == callIdx && c.name == "cudaStreamWaitEvent" && decide (c.link > 0) with
+  | none => none
+  | some c =>
+    match rows.find? fun k => k.idx == c.link && k.stream != -1 && decide (k.link > 0) with
+    | none => none
+    | some k =>
+      some (((launches rows).find? fun l =>
+        l.call.pid == c.pid && l.call.tid == c.tid && l.stream == k.stream && decide (l.call.ts > c.ts)).map (·.call.idx) |>.getD (-1))
+
+def linkOf (rows : List Row) (i : Int) : Int := ((findRow rows i).map (·.link)).getD (-1)
+def streamOf (rows : List Row) (i : Int) : Int := ((findRow rows i).map (·.stream)).getD (-1)
+
+/-- pending GPU->GPU dependencies: waiting kernel -> kernel to wait for (`none` once consumed) -/
+abbrev KSync := List (Int × Option Int)
+
+def ksGet (m : KSync) (i : Int) : Option (Option Int) := (m.find? fun x => x.1 == i).map (·.2)
+def ksSet (m : KSync) (i : Int) (v : Option Int) : KSync :=
+  if m.any (fun x => x.1 == i) then m.map fun x => if x.1 == i then (i, v) else x else m ++ [(i, v)]
+
+structure KState where
+  last : KS
+  ksync : KSync
+  deriving Repr, BEq
+
+/-- Has the analysis any event records to join with (`cuda_record_calls is not None`)? -/
+def hasRecords (rows : List Row) (ws : Waits) : Bool :=
+  rows.any fun c => c.name == "cudaEventRecord" && (recordStream rows ws c.corr).isSome
+
+/-- `index_previous_launch` of a synchronisation record as the kernel loop sees it. -/
+def syncPrev (rows : List Row) (ws : Waits) (r : Row) : Int :=
+  if hasRecords rows ws then prevLaunchOfSync rows ws r else -1
+
+def hasNodeIn (clipped : List Row) (i : Int) : Bool := ((findRow clipped i).map hasNode).getD false
+
+/-- `handle_cuda_sync` for `Stream Wait Event` / `Event Sync` records. -/
+def eventStep (rows clipped : List Row) (ws : Waits) (st : KState) (r : Row) : KState × List Desc :=
+  if syncPrev rows ws r == -1 then (st, [])
+  else if r.name == "Stream Wait Event" then
+    match nextLaunch rows r.link with
+    | some nl =>
+      if nl < 0 then (st, [])
+      -- waiting for an event of the same stream is implied by stream order: nothing is scheduled
+      else if streamOf rows (linkOf rows (syncPrev rows ws r)) == streamOf rows (linkOf rows nl) then (st, [])
+      else ({ st with ksync := ksSet st.ksync (linkOf rows nl) (some (linkOf rows (syncPrev rows ws r))) }, [])
+    | none => (st, [])
+  else if hasNodeIn clipped (linkOf rows (syncPrev rows ws r)) && hasNodeIn clipped r.link then
+    (st, [⟨⟨linkOf rows (syncPrev rows ws r), false⟩, ⟨r.link, false⟩, .sync, false, -1⟩])
+  else (st, [])
+
+/-- The end node of the kernel a pending GPU->GPU dependency makes `i` wait for (if that kernel is analysed). -/
+def ksEndOf (clipped : List Row) (ks : KSync) (i : Int) : Option NodeId :=
+  match ksGet ks i with
+  | some (some s) => if hasNodeIn clipped s then some ⟨s, false⟩ else none
+  | _ => none
+
+def kernelStep (rows clipped : List Row) (ws : Waits) (q : Int → Option Int) (zeroLaunch : Bool) (st : KState) (r : Row) :
+    KState × List Desc :=
+  let hasN := hasNodeIn clipped
   if r.cat == "cuda_sync" then
-    if (r.name == "Stream Sync" || r.name == "Context Sync") && hasN r.link then
-      let srcs := if r.name == "Context Sync" then st.map (·.2) else (lastOn st r.stream).toList
+    if r.name == "Stream Wait Event" || r.name == "Event Sync" then eventStep rows clipped ws st r
+    else if (r.name == "Stream Sync" || r.name == "Context Sync") && hasN r.link then
+      let srcs := if r.name == "Context Sync" then st.last.map (·.2) else (lastOn st.last r.stream).toList
       (st, srcs.map fun n => (⟨n, ⟨r.link, false⟩, .sync, false, -1⟩ : Desc))
     else (st, [])
   else
     let startN : NodeId := ⟨r.idx, true⟩
     let endN : NodeId := ⟨r.idx, false⟩
     let span : List Desc := [⟨startN, endN, .op, false, -1⟩]
-    let lastN := lastOn st r.stream
+    -- a pending GPU->GPU dependency scheduled by an earlier Stream Wait Event
+    let ksEnd : Option NodeId := ksEndOf clipped st.ksync r.idx
+    let ksync' := match ksGet st.ksync r.idx with
+      | some (some _) => ksSet st.ksync r.idx none
+      | _ => st.ksync
+    let gsync : List Desc := match ksEnd with
+      | some n => [⟨n, startN, .sync, false, -1⟩]
+      | none => []
+    let lastN := lastOn st.last r.stream
     let rtTs := ((findRow rows r.link).map (·.ts)).getD 0
     let launchCond := q r.link == some 1 && q r.idx == some 0 &&
-      (match lastN with | none => true | some n => decide (tsOf rows n < rtTs))
+      (match lastN with | none => true | some n => decide (tsOf rows n < rtTs)) &&
+      (match ksEnd with | none => true | some n => decide (tsOf rows n < rtTs))
     let launched := launchCond && hasN r.link
     let delay : List Desc :=
       if launched then [⟨⟨r.link, true⟩, startN, .launch, false, -1⟩]
       else match lastN with
-        | some n => [⟨n, startN, .kk, false, -1⟩]
+        | some n =>
+          if (match ksEnd with | none => true | some k => decide (tsOf rows k < tsOf rows n)) then [⟨n, startN, .kk, false, -1⟩] else []
         | none => []
     let zl : List Desc := if zeroLaunch && !launched && hasN r.link then
         [⟨⟨r.link, true⟩, startN, .launch, true, -1⟩] else []
-    (setLast st r.stream endN, span ++ delay ++ zl)
+    ({ last := setLast st.last r.stream endN, ksync := ksync' }, span ++ gsync ++ delay ++ zl)
 
-def kernelRun (rows clipped : List Row) (q : Int → Option Int) (zeroLaunch : Bool) :
-    KS → List Row → List Desc
+def kernelRun (rows clipped : List Row) (ws : Waits) (q : Int → Option Int) (zeroLaunch : Bool) :
+    KState → List Row → List Desc
   | _, [] => []
   | st, r :: rs =>
-    let x := kernelStep rows clipped q zeroLaunch st r
-    x.2 ++ kernelRun rows clipped q zeroLaunch x.1 rs
+    let x := kernelStep rows clipped ws q zeroLaunch st r
+    x.2 ++ kernelRun rows clipped ws q zeroLaunch x.1 rs
 
 def kernelRows (rows clipped : List Row) : List Row :=
   let ks := clipped.filter fun r =>
@@ -239,13 +367,13 @@ def kernelRows (rows clipped : List Row) : List Row :=
 
 /-- Everything the construction emits, in order: call-stack edges thread by thread, then the
 kernel loop. -/
-def descs (rows clipped : List Row) (zeroLaunch : Bool) : List Desc :=
+def descs (rows clipped : List Row) (ws : Waits) (zeroLaunch : Bool) : List Desc :=
   (C13.threadsOf clipped).flatMap (threadDescs clipped) ++
-    kernelRun rows clipped (queueOf (C14.run rows)) zeroLaunch [] (kernelRows rows clipped)
+    kernelRun rows clipped ws (queueOf (C14.run rows)) zeroLaunch ⟨[], []⟩ (kernelRows rows clipped)
 
 /-- The whole graph for a window of one rank. -/
-def build (rows : List Row) (w : Int × Int) (zeroLaunch : Bool) : List Row × G :=
+def build (rows : List Row) (ws : Waits) (w : Int × Int) (zeroLaunch : Bool) : List Row × G :=
   let clipped := clip rows w
-  (clipped, applyAll rows ⟨[], []⟩ (descs rows clipped zeroLaunch))
+  (clipped, applyAll rows ⟨[], []⟩ (descs rows clipped ws zeroLaunch))
 
 end Hta.C08
